@@ -342,9 +342,16 @@ class Run:
         try:
             if not writing(mode):
                 data = "x" if ("b" not in mode and name == "open") else b"x"
-                for meth, args in (("write", (data,)), ("writelines", ([data],)), ("truncate", (0,)), ("truncate", ())):
+                for meth, args in (("write", (data,)), ("writelines", ([data],)), ("truncate", (0,)), ("truncate", ()),
+                                   ("truncate", (70001,)), ("seek+truncate", ())):
                     rep.evaluations += 1
-                    o = R.outcome(lambda: getattr(fh, meth)(*args))
+                    if meth == "seek+truncate":
+                        # growing is a modification too: beyond the end, then truncate at the position
+                        R.outcome(lambda: fh.seek(70003))
+                        o = R.outcome(lambda: fh.truncate())
+                        R.outcome(lambda: fh.seek(0))
+                    else:
+                        o = R.outcome(lambda: getattr(fh, meth)(*args))
                     if o[0] == "ok":
                         self.viol(dict(case, handle_method=meth), "%s: handle from %s(%s) accepted %s%r" % (cons.kind, name, kw, meth, args),
                                   True, "C04/handle/%s/%s" % (type(fh).__name__, meth))
